@@ -24,6 +24,7 @@ var allSpecs = []HarnessSpec{
 	{Prop: "C03", Func: "ZZ_C03_FailStop", Tag: "shape=3", POR: true, Replay: "native", Params: map[string]int{"shape": 3, "failing": 1, "__coarse": 1}, TParams: map[string]int{"failing": 99}},
 	{Prop: "C04", Func: "ZZ_H_History", Tag: "prop=4", POR: true, Replay: "native", Twin: true, Params: map[string]int{"prop": 4, "steps": 2, "__coarse": 1}, TParams: map[string]int{"steps": 3, "two_cmds": 1}},
 	{Prop: "C04", Func: "ZZ_H_History", Tag: "prop=4,cancelled-by-sibling", POR: true, Replay: "native", Params: map[string]int{"prop": 4, "steps": 2, "sibling_history": 1, "__coarse": 1}},
+	{Prop: "C04", Func: "ZZ_H_History", Tag: "prop=4,killed-part-way", POR: true, Replay: "native", Params: map[string]int{"prop": 4, "steps": 3, "kill_history": 1, "__coarse": 1}, TParams: map[string]int{"two_cmds": 1}},
 	{Prop: "C05", Func: "ZZ_H_Instances", POR: true, Replay: "native", Twin: true, Params: map[string]int{"steps": 3, "__coarse": 1}},
 	{Prop: "C04", Func: "ZZ_H_Instances", POR: true, Replay: "native", Params: map[string]int{"steps": 3, "__coarse": 1}},
 	{Prop: "C05", Func: "ZZ_H_History", Tag: "prop=5", POR: true, Replay: "native", Twin: true, Params: map[string]int{"prop": 5, "steps": 2, "__coarse": 1}, TParams: map[string]int{"steps": 3, "two_cmds": 1}},
